@@ -12,3 +12,6 @@ META = {
     "assumptions": ["SharedMemory and the disk pool are opaque; one dataset per model store"],
 }
 RULES = [r_add, r_get_pagein, r_pageout_callback, r_pagein_callback, r_purge, r_space_writers, r_residency_pairing, r_server_dispatch]
+
+from .common import lazy  # noqa: E402
+RULES.append(lazy("shm", "r_disk", "space is credited only after the segment is really gone: write, unlink, then report"))
